@@ -49,6 +49,11 @@ def sandbox(rng):
         b"s.css": b"p{}\n", b"x.js": b"var x;\n", b"p.svg": b"<svg/>\n", b"UP.VNC": b"up $WIDTH\n", b"noext": b"noext\n",
         b"nul.vnc": b"a$WIDTH\x00b$WIDTH\n", b"big.bin": big, b"big.vnc": bigvnc, b"empty": b"", b"d.ir/f": b"f\n",
         b"proxied.connection": b"not a proxy\n", b"q.vnc": b"\x01$PARAMS\x02",
+        # substitution edge cases: size 0, exactly one fread chunk (BUF_SIZE-1), BUF_SIZE with a variable name
+        # cut by the chunk boundary, "$$" cut by it, files that START with an unknown variable / the escape
+        b"empty.vnc": b"", b"ex32767.vnc": b"a" * (BUF - 8) + b"$WIDTH!",
+        b"ex32768.vnc": b"a" * (BUF - 6) + b"$WIDTH", b"straddle2.vnc": b"a" * (BUF - 2) + b"$$z$PORT\n",
+        b"d.vnc": b"$$ and $X\n", b"e.vnc": b"$X$WIDTH$", b"desk.vnc": b"D=$DESKTOP U=$USER DI=$DISPLAY\n",
     }
     dirs = [b"sub", b"d.ir"]
     return files, dirs
@@ -69,7 +74,8 @@ GOOD_PATHS = [b"/", b"/a.txt", b"/sub/b.html", b"/index.vnc", b"/big.bin", b"/bi
               b"/UP.VNC", b"/noext", b"/sub", b"/sub/", b"/sub/index.vnc", b"/nul.vnc", b"//a.txt", b"/./a.txt",
               b"/sub/./b.html", b"/sub//b.html", b"/a.txt/", b"/a.txt/.", b"/a.txt/x", b"/nonexist", b"/.", b"/./",
               b"//", b"/empty", b"/d.ir/f", b"/d.ir", b"/proxied.connection", b"/q.vnc", b"/sub/.", b"/S.CSS", b"/x.JS",
-              b"/index.vnc/", b"/.vnc", b"/a.vnc", b"/sub/index.vnc?x=y"]
+              b"/index.vnc/", b"/.vnc", b"/a.vnc", b"/sub/index.vnc?x=y", b"/empty.vnc", b"/ex32767.vnc",
+              b"/ex32768.vnc", b"/straddle2.vnc", b"/d.vnc", b"/e.vnc", b"/desk.vnc"]
 TRAVERSAL = [b"/../secret", b"/sub/../../secret", b"/..", b"/...", b"/a..b", b"/sub/..", b"/%2e%2e/secret",
              b"/%2e%2e%2fsecret", b"/..%2fsecret", b"/.%2e/secret", b"/?/../secret", b"/a.txt?/../../secret",
              b"/a.txt?x=/../secret", b"\\..\\secret", b"/..\\secret", b"//../secret", b"/./../secret", b"/sub/.../x",
@@ -185,13 +191,14 @@ def terminator_seen(b):
 
 class Case:
     """one `req` op; `group` keeps ops that must stay on one connection together"""
-    __slots__ = ("b", "cuts", "end")
+    __slots__ = ("b", "cuts", "end", "race")
 
-    def __init__(self, b, cuts=(), end="keep"):
-        self.b, self.cuts, self.end = bytes(b), tuple(cuts), end
+    def __init__(self, b, cuts=(), end="keep", race=False):
+        self.b, self.cuts, self.end, self.race = bytes(b), tuple(cuts), end, race
 
     def line(self):
-        return "req %s %s %s" % (hx(self.b), ",".join(str(c) for c in self.cuts) or "-", self.end)
+        return "req %s %s %s%s" % (hx(self.b), ",".join(str(c) for c in self.cuts) or "-", self.end,
+                                   " race" if self.race else "")
 
 
 def safe_cuts(proxy, b, cuts):
@@ -258,7 +265,52 @@ def gen_cases(rng, proxy, port, dirlen, n, focus):
                 seq = [rng.choice(with_q + bad_q + no_q + other) for _ in range(rng.randint(2, 5))]
             groups.append([rq(t) for t in seq])
         return groups
+    if focus == "subst":
+        # every $-variable under several desktop names / USER settings (also unset), every edge-case .vnc file,
+        # peers that are gone before / while the page is expanded
+        vnc = [b"/index.vnc", b"/", b"/q.vnc", b"/nul.vnc", b"/big.vnc", b"/empty.vnc", b"/ex32767.vnc", b"/ex32768.vnc",
+               b"/straddle2.vnc", b"/d.vnc", b"/e.vnc", b"/desk.vnc", b"/UP.VNC", b"/sub/index.vnc"]
+        envs = [(b"verif desk", b"vuser"), (b"a$WIDTH<b>&\"'$$", None), (b"$PARAMS$", b"<u>$USER"), (b"", b""),
+                (b"D" * 300, b"u" * 100), (b"\xc3\xa9 caf\xe9", b"root")]
+        for dsk, usr in envs:
+            groups.append(["env %s %s" % (hx(dsk), "none" if usr is None else hx(usr))] +
+                          [Case(b"GET " + v + rng.choice([b"", b"?a=b", b"?x=1&y=2+3"]) + b" HTTP/1.0\r\n\r\n",
+                                (), e)
+                           for v in vnc for e in (["keep"] + ([rng.choice(["full", "half"])] if rng.random() < 0.4 else []))] +
+                          [Case(b"GET " + v + b"\n\n", (), "full") for v in (b"/d.vnc", b"/e.vnc", b"/index.vnc")])
+        groups.append(["env %s %s" % (hx(b"verif desk"), hx(b"vuser"))])
+        return groups
+    if focus == "accept":
+        # rfbHttpCheckFds: both listeners, a second connection while one is open (idle, pending, with unread input
+        # = one call handles input and accept), proxy hand-over followed by a new connection
+        reqs = [b"GET /a.txt HTTP/1.0\r\n\r\n", b"GET /a.tx", b"", b"POST / HTTP/1.0\r\n\r\n", b"GET /../secret\n\n",
+                b"GET /index.vnc?a=b\n\n", b"A" * 40000]
+        if proxy:
+            reqs += [b"CONNECT h:" + str(port).encode() + b"\r\n\r\n", b"GET /proxied.connection HTTP/1.0\r\n\r\n",
+                     b"CONNECT h:1\r\n\r\n"]
+        for l in (4, 6, 4, 6):
+            g = ["listener %d" % l]
+            for b in reqs:
+                g += [Case(b, (), "keep", race=True), Case(b"GET /a.txt\n\n")]
+                g += [Case(b[:max(0, len(b) // 2)]), "newconn", Case(b"GET /s.css\n\n"), "newconn", "newconn", "hangup"]
+                g += ["listener %d" % (10 - l), Case(b, (), rng.choice(["keep", "half", "reset"])), "listener %d" % l]
+            groups.append(g)
+        return groups
     if focus == "long":
+        # deterministic core: headers of BUF_SIZE-2 .. BUF_SIZE+1 bytes without a blank line: one burst, many
+        # short reads, two bursts; the same with the blank line as the last bytes that still fit / no longer fit
+        head = b"GET /a.txt HTTP/1.0\r\nX: "
+        for n_ in (BUF - 2, BUF - 1, BUF, BUF + 1):
+            for b in (head + b"h" * (n_ - len(head)), b"\x00" + b"q" * (n_ - 1),
+                      head + b"h" * (n_ - len(head) - 2) + b"\n\n"):
+                one(b)
+                one(b, tuple(range(1024, len(b), 1024)))
+                one(b, tuple(range(1, 200)))
+                one(b, (), "half")
+                one(b, (), "reset")
+                k = rng.randrange(1, len(b))
+                groups.append([Case(b[:k]), Case(b[k:])])
+                groups.append([Case(b[:BUF - 1]), Case(b[BUF - 1:] + b"\r\n\r\n")])
         for b in lg:
             one(b)
             if len(b) > 100:
@@ -300,7 +352,7 @@ def gen_cases(rng, proxy, port, dirlen, n, focus):
             b = line + hdrs() + (term() if rng.random() < 0.93 else b"")
             rr = rng.random()
             if rr < 0.55 or len(b) < 3:
-                one(b, (), rng.choice(["keep"] * 5 + ["half", "full"]))
+                one(b, (), rng.choice(["keep"] * 5 + ["half", "full", "reset"]))
             elif rr < 0.8:
                 k = sorted(rng.sample(range(1, len(b)), min(len(b) - 1, rng.randint(1, 4))))
                 one(b, k, rng.choice(["keep", "keep", "half"]))
@@ -322,8 +374,10 @@ def build_script(rng, proxy, port, dirlen, listener, groups):
     meta = [None] * len(lines)
     for g in groups:
         for i, c in enumerate(g):
-            lines.append(c.line())
-            meta.append(c)
+            lines.append(c.line() if isinstance(c, Case) else c)
+            meta.append(c if isinstance(c, Case) else None)
+        if not isinstance(g[-1], Case):
+            continue
         if rng.random() < 0.1:
             lines.append(rng.choice(["hangup", "newconn"]))
             meta.append(None)
@@ -515,7 +569,9 @@ def oracle(sc, impl):
                 return "op %d: file opened but neither served nor answered 404" % i
         if complete and terminator_seen(whole) and d["conn"] == "open":
             return "op %d: complete request: connection neither closed nor handed over (response %r)" % (i, resp)
-        if t[3] == "half" and d["conn"] == "open":
+        if len(t) == 5:
+            hist = b""                      # race: the server's current connection is a fresh one
+        if (t[3] == "half" or (t[3] == "reset" and b)) and d["conn"] == "open":
             return "op %d: connection still open after the peer finished" % i
         if st and d["conn"] != "closed":
             return "op %d: connection not closed after the response" % i
@@ -653,6 +709,8 @@ def _run(ctx, env):
             for k in range(4 if quick else 12):
                 plan.append((proxy, rng.choice([70, 255]), "seg"))
             plan.append((proxy, rng.choice([70, 200]), "leak"))
+            plan.append((proxy, rng.choice([70, 150]), "subst"))
+            plan.append((proxy, rng.choice([70, 254]), "accept"))
             plan.append((proxy, 80, "long"))
             plan.append((proxy, 255, "long"))
         for k in range(10 if quick else 150):
